@@ -41,6 +41,9 @@ func checkC17(c *Ctx) {
 		}
 	}
 	c.fmtConst("FMT-CONST", nniPkgs, "each of them is a well-formed tree on the same tips", nil)
+	c.Decides("CARRIED-BUF: no command (nni included) fills and consumes, inside its loop over the input trees, a buffer declared before the loop without resetting it")
+	ncb, _ := c.carriedBuf("CARRIED-BUF", append(c.AllFuncs("cmd"), c.PkgLevelClosures("cmd")...), "exactly two rearrangements per inner branch")
+	c.Trivial("CARRIED-BUF", "scan", 0, fmt.Sprintf("%d buffers written inside loops over input trees", ncb))
 	c.Decides("ENDS: Apply and Undo re-target the moved branches for both orientations")
 	if p := c.Pkg("tree"); p != nil {
 		var fs []*FuncInfo
